@@ -138,9 +138,13 @@ class SimTerminal:
         if addr <= 0x502 < addr + n and n >= 2:
             ctrl, = struct.unpack_from("<H", self.mem, 0x502)
             if ctrl & 0x0700 == 0x0100:            # read command
-                self.ee_addr, = struct.unpack_from("<I", self.mem, 0x504)
-                self.ee_busy = self.ee_busy_for()
-                self.events.append(("eeprom_read_cmd", self.ee_addr))
+                if self.ee_idle_busy > 0 or self.ee_busy > 0:
+                    # a busy EEPROM interface does not take commands
+                    self.events.append(("eeprom_cmd_ignored_while_busy",))
+                else:
+                    self.ee_addr, = struct.unpack_from("<I", self.mem, 0x504)
+                    self.ee_busy = self.ee_busy_for()
+                    self.events.append(("eeprom_read_cmd", self.ee_addr))
         for i in range(self.nfmmu):
             base = 0x600 + 16 * i
             if addr < base + 16 and base < addr + n:
@@ -267,6 +271,7 @@ class SdoServer:
         self.down = None                      # download in progress
         self.counter = 0
         self.counters_seen = []
+        self.last_counter = 0                 # of the last mail accepted
 
     def reply(self, coe_service, body):
         self.counter = self.counter % 7 + 1
@@ -288,6 +293,12 @@ class SdoServer:
         length, addr, chan, tc = struct.unpack_from("<HHBB", msg, 0)
         typ, cnt = tc & 0xf, tc >> 4
         self.counters_seen.append(cnt)
+        if cnt != 0 and cnt == self.last_counter:
+            # ETG.1000.4: a mailbox service with the counter of the previous
+            # one is a repetition and is not executed again
+            self.log.append(("repeated-counter-dropped", cnt))
+            return []
+        self.last_counter = cnt
         if 6 + length > self.out_size:
             self.errors.append(f"request of {6 + length} bytes exceeds "
                                f"mailbox {self.out_size}")
